@@ -370,6 +370,19 @@ func checkC12(p *Prog, r *Report) {
 				}
 			}
 		}
+		/* slices.ContainsFunc(table, func(t error) bool { return
+		errors.Is(err, t) }): the same question asked of every row. */
+		if ok && strings.HasPrefix(calleeName(c.Common()), "slices.ContainsFunc") && 2 == len(c.Common().Args) {
+			pred, _ := closureOf(c.Common().Args[1])
+			if nil == pred || 1 != len(pred.Params) || !isErrorsIsOfParam(pred) {
+				return
+			}
+			for _, n := range tableNames(p, c.Common().Args[0]) {
+				if "ErrOneShellClosed" == n {
+					isCall = c
+				}
+			}
+		}
 	})
 	if nil == isCall {
 		rExit.Bad("main.rmain:ErrOneShellClosed", rm.Pos(), "main never compares the final error with hsrv.ErrOneShellClosed: the clean end of -one-shell is reported as a fatal error")
@@ -567,7 +580,13 @@ func tableElemNames(p *Prog, v ssa.Value) []string {
 	if !ok {
 		return nil
 	}
-	tl, ok := ia.X.(*ssa.UnOp)
+	return tableNames(p, ia.X)
+}
+
+// tableNames: the names of the package-level variables listed in the fixed
+// table (a package-level slice literal never written again) tbl is a load of.
+func tableNames(p *Prog, tbl ssa.Value) []string {
+	tl, ok := stripConv(resolveCell(tbl), false).(*ssa.UnOp)
 	if !ok || token.MUL != tl.Op {
 		return nil
 	}
@@ -623,4 +642,31 @@ func tableElemNames(p *Prog, v ssa.Value) []string {
 		}
 	}
 	return out
+}
+
+// isErrorsIsOfParam: pred is func(t error) bool { return errors.Is(x, t) }.
+func isErrorsIsOfParam(pred *ssa.Function) bool {
+	if 1 != len(pred.Blocks) {
+		return false
+	}
+	var is *ssa.Call
+	okShape := true
+	eachInstr(pred, func(i ssa.Instruction) {
+		switch x := i.(type) {
+		case *ssa.Call:
+			if "errors.Is" == calleeName(x.Common()) && x.Common().Args[1] == ssa.Value(pred.Params[0]) {
+				is = x
+			} else {
+				okShape = false
+			}
+		case *ssa.Return:
+			if 1 != len(x.Results) || nil == is || x.Results[0] != ssa.Value(is) {
+				okShape = false
+			}
+		case *ssa.UnOp, *ssa.DebugRef:
+		default:
+			okShape = false
+		}
+	})
+	return okShape && nil != is
 }
